@@ -80,3 +80,17 @@ func (ContextTracker) OnWrite(x *Ctx, w *Write) {
 		}
 	}
 }
+
+// OnTransition remembers which BatchRelease (if any) existed when the user reverted / superseded the release:
+// the cancellation-order obligations of C10 concern that BatchRelease, not one created afterwards.
+func (ContextTracker) OnTransition(x *Ctx, t *Transition) {
+	if t.Actor != "user" || !(strings.HasSuffix(t.Label, ":rollback") || strings.HasSuffix(t.Label, ":release3")) {
+		return
+	}
+	x.Mon["ctx.brAtCancel"] = "none"
+	for _, o := range x.W.Store.PeekAll("batchreleases") {
+		if accessor(o).GetNamespace() == x.Sc.ns() && accessor(o).GetName() == AppName {
+			x.Mon["ctx.brAtCancel"] = string(accessor(o).GetUID())
+		}
+	}
+}
